@@ -27,6 +27,10 @@ fn main() {
         let x = unsafe { std::ptr::read_volatile(b.as_ptr() as *const u64) };
         if x == 42 { r.observe("uninit-42", 1); } else { r.observe("uninit-other", 1); }
     }
+    if args.get("segv").is_some() {
+        let x = unsafe { std::ptr::read_volatile(8 as *const u8) };
+        r.observe("segv", x as u64);
+    }
     if args.get("race").is_some() {
         static mut X: u64 = 0;
         let a = std::thread::spawn(|| unsafe { for _ in 0..1000 { X += 1; } });
